@@ -1,6 +1,7 @@
 \* C02 leg A quick: 2 counter replicas, <= 3 samples each on a 4-point grid, value = start {0,2} +
-\* partial sums of increments {0,1,5} (117 series per replica, 13 689 inputs); counter-adjusting
-\* iterators; reader from the start + seek-first readers (2 targets). Leg B gets every 2nd input.
+\* partial sums of increments {0,5} (65 series per replica, 4 225 inputs); counter-adjusting
+\* iterators; reader from the start + readers mixing Next with at most one Seek(7).
+\* Leg B gets every 2nd input.
 SPECIFICATION Spec
 CONSTANTS InitPen = 5
           Grid = {0, 1, 6, 11}
@@ -8,8 +9,8 @@ CONSTANTS InitPen = 5
           MaxLen = 3
           Ctr = TRUE
           Starts = {0, 2}
-          Incs = {0, 1, 5}
-          Targets = {1, 7}
+          Incs = {0, 5}
+          Targets = {7}
           EmitMod = 2
           MaxSeeks = 1
           Kinds = {"f"}
